@@ -30,6 +30,10 @@ func main() {
 		code := h.RunCheck(os.Args[2], os.Args[3], *procs, *budget)
 		h.CleanupScratch()
 		os.Exit(code)
+	case "scenarios":
+		for _, n := range h.ScenarioNames("") {
+			fmt.Println(n)
+		}
 	case "crashchild":
 		h.CrashChildMain(os.Args[2])
 	case "crashdump":
